@@ -302,10 +302,22 @@ def packet_emission_order(ctx, b):
         if e is None:
             continue
         src = None
+        chained = None
         for h, info in lps.items():
             if e["bi"] in info["body"]:
                 nodes = [n for n in a2.join_info if n[0] == h]
                 src = layout.loop_source(a2, nodes[0]) if nodes else "?"
+                # `for e in self.a.iter().chain(&self.b)`: the loop walks both collections, in that order
+                ht = b.blocks[h]["term"]
+                if ht["t"] == "call" and ht.get("callee") and ht["callee"]["name"] == "next" and "Chain<" in (ht["callee"].get("full") or "") \
+                        and ht["args"] and mu.op_local(ht["args"][0]) is not None:
+                    root = mu.ref_root(b, defs, mu.op_local(ht["args"][0]))
+                    if root is not None:
+                        chained = _iter_sources(b, defs, {"o": "move", "pl": {"l": root, "p": []}})
+        if chained and len(chained) > 1:
+            for sname in chained:
+                order.append((e["fn"], e["type"], sname))
+            continue
         ty = e["type"]
         if ty is None and src and src.startswith("(*_1)."):
             # written through a generic helper (`write_section<E: WireFormat>`): the element type is that of the collection
